@@ -158,12 +158,14 @@ returns `t`
 * on side `postTransition = false` when `t` is the earlier instant of a repeated period — and side
   `true` then returns the later instant with the same local time,
 * on side `postTransition = true` when `t` is the later instant — and side `false` returns the earlier one.
-This includes the period repeated by the **last** transition of the data (`k + 1 = n`). -/
+This includes the period repeated by the **last** transition of the data (`k + 1 = n`) and the one repeated by the
+**first** (`k = 0`: before it `localtimes.front()` is in force, `Data.oPrev d 0`; the earlier instant then lies before
+the first transition - `zone_roundtrip_before` is the statement from its side). -/
 theorem zone_roundtrip (d : Data) (h : WF d) (k : Nat) (t : Int) (hk : InEra d k t)
     (hr : tMin ≤ t + d.o k) :
     let back := fun post => fromLocalTime d (toLocalTime d t).1 post
     (EarlierCopy d k t → back false = t ∧ back true = t + d.o k - d.o (k + 1) ∧ d.u (k + 1) ≤ back true) ∧
-    (LaterCopy d k t → back true = t ∧ back false = t + d.o k - d.o (k - 1) ∧ back false < d.u k) ∧
+    (LaterCopy d k t → back true = t ∧ back false = t + d.o k - d.oPrev k ∧ back false < d.u k) ∧
     (¬ EarlierCopy d k t → ¬ LaterCopy d k t → ∀ post, back post = t) := by
   intro back
   have hu : findUtc d t = d.lrec k := findUtc_eq h hk
@@ -184,8 +186,8 @@ theorem zone_roundtrip (d : Data) (h : WF d) (k : Nat) (t : Int) (hk : InEra d k
   · intro hl
     have he : ¬ EarlierCopy d k t := fun he => not_both h hk ⟨he, hl⟩
     rw [hb false, hb true, findLocal_era h hk false, findLocal_era h hk true]
-    simp only [he, hl, if_true, Bool.false_eq_true, if_false, eo]
-    obtain ⟨_, l2⟩ := hl
+    simp only [he, hl, if_true, Bool.false_eq_true, if_false, eo, prevRec_offset]
+    unfold LaterCopy at hl
     refine ⟨?_, ?_, ?_⟩ <;> first | trivial | omega
   · intro he hl post
     rw [hb post, findLocal_era h hk post]
@@ -197,8 +199,8 @@ the other side lies in the neighbouring era and breaks down to the same civil fi
 theorem zone_repeated_same_local (d : Data) (h : WF d) (k : Nat) (t : Int) (hk : InEra d k t) :
     (EarlierCopy d k t → InEra d (k + 1) (t + d.o k - d.o (k + 1)) ∧
       (toLocalTime d (t + d.o k - d.o (k + 1))).1 = (toLocalTime d t).1) ∧
-    (LaterCopy d k t → InEra d (k - 1) (t + d.o k - d.o (k - 1)) ∧
-      (toLocalTime d (t + d.o k - d.o (k - 1))).1 = (toLocalTime d t).1) := by
+    (LaterCopy d k t → (0 < k → InEra d (k - 1) (t + d.o k - d.oPrev k)) ∧ (k = 0 → t + d.o k - d.oPrev k < d.u 0) ∧
+      (toLocalTime d (t + d.o k - d.oPrev k)).1 = (toLocalTime d t).1) := by
   have hu : findUtc d t = d.lrec k := findUtc_eq h hk
   have eo : ∀ i, (d.lrec i).utcOffset = d.o i := fun _ => rfl
   obtain ⟨h1, h2, h3⟩ := hk
@@ -218,19 +220,30 @@ theorem zone_repeated_same_local (d : Data) (h : WF d) (k : Nat) (t : Int) (hk :
     refine ⟨era, ?_⟩
     simp only [toLocalTime, findUtc_eq h era, hu, eo, Gen.Zone.toLocalShift]
     congr 1; omega
-  · rintro ⟨l1, l2⟩
-    have hkk : k - 1 + 1 = k := by omega
-    have g := h.gap (k - 1) (by omega)
-    rw [hkk] at g
-    have c := chg_ge d k l1
-    have hn := chg_nonneg d (k - 1)
-    have era : InEra d (k - 1) (t + d.o k - d.o (k - 1)) := by
-      refine ⟨by omega, by omega, ?_⟩
-      intro _
-      rw [hkk]; omega
-    refine ⟨era, ?_⟩
-    simp only [toLocalTime, findUtc_eq h era, hu, eo, Gen.Zone.toLocalShift]
-    congr 1; omega
+  · intro l2
+    unfold LaterCopy at l2
+    by_cases l1 : 0 < k
+    · have hkk : k - 1 + 1 = k := by omega
+      have g := h.gap (k - 1) (by omega)
+      rw [hkk] at g
+      have c := chg_ge d k l1
+      have hn := chg_nonneg d (k - 1)
+      have hp := oPrev_pos d k l1
+      rw [hp] at l2 ⊢
+      have era : InEra d (k - 1) (t + d.o k - d.o (k - 1)) := by
+        refine ⟨by omega, by omega, ?_⟩
+        intro _
+        rw [hkk]; omega
+      refine ⟨fun _ => era, fun hk0 => absurd hk0 (by omega), ?_⟩
+      simp only [toLocalTime, findUtc_eq h era, hu, eo, Gen.Zone.toLocalShift]
+      congr 1; omega
+    · have hk0 : k = 0 := by omega
+      subst hk0
+      rw [oPrev_zero] at l2 ⊢
+      have hb : t + d.o 0 - (d.lt 0).utcOffset < d.u 0 := by omega
+      refine ⟨fun hh => absurd hh (by omega), fun _ => hb, ?_⟩
+      simp only [toLocalTime, findUtc_before _ hb, hu, eo, Gen.Zone.toLocalShift]
+      congr 1; omega
 
 /-- **skipped local times**: a civil time that transition `k+1` jumped over (from the first local
 second it skipped up to the last) is converted with the offset of the requested side: the offset in
@@ -244,6 +257,50 @@ theorem zone_skipped (d : Data) (h : WF d) (k : Nat) (dt : DateTime) (hk : k + 1
   simp only [fromLocalTime, Gen.Zone.fromLocalShift, findLocal_skipped h hk h1 h2, if_true,
     Bool.false_eq_true, if_false, eo]
   refine ⟨?_, ?_, ?_, ?_⟩ <;> first | trivial | omega
+
+/-- **instants before the first transition** (there `localtimes.front()` is in force - `zone_lookup_spec`): converting to
+local time and back returns `t` on side `postTransition = false` when the first transition repeats that local time
+(and side `true` then returns the later instant, in the first transition's era), on both sides otherwise. -/
+theorem zone_roundtrip_before (d : Data) (h : WF d) (hn : 0 < d.n) (t : Int) (ht : t < d.u 0)
+    (hr : tMin ≤ t + d.oPrev 0) :
+    let back := fun post => fromLocalTime d (toLocalTime d t).1 post
+    (d.u 0 + d.o 0 ≤ t + d.oPrev 0 → back false = t ∧ back true = t + d.oPrev 0 - d.o 0 ∧ d.u 0 ≤ back true) ∧
+    (t + d.oPrev 0 < d.u 0 + d.o 0 → ∀ post, back post = t) := by
+  intro back
+  have hu : findUtc d t = d.lt 0 := findUtc_before t ht
+  have ho : (findUtc d t).utcOffset = d.oPrev 0 := by rw [hu]; rfl
+  have hb : ∀ post, back post = t + d.oPrev 0 - (findLocal d (t + d.oPrev 0) post).utcOffset := by
+    intro post
+    have := fromLocal_toLocal d t post (by rw [ho]; exact hr)
+    rw [ho] at this
+    exact this
+  have eo : (d.lrec 0).utcOffset = d.o 0 := rfl
+  have e0 : (d.lt 0).utcOffset = d.oPrev 0 := rfl
+  have hf := fun post => findLocal_before h hn ht post
+  simp only [e0] at hf
+  constructor
+  · intro hc
+    rw [hb false, hb true, hf false, hf true]
+    simp only [hc, if_true, Bool.false_eq_true, if_false, eo, e0]
+    refine ⟨?_, ?_, ?_⟩ <;> first | trivial | omega
+  · intro hc post
+    rw [hb post, hf post]
+    have : ¬ (d.u 0 + d.o 0 ≤ t + d.oPrev 0) := by omega
+    simp only [this, if_false, e0]
+    omega
+
+/-- **local times skipped by the first transition**: resolved like every other skipped time - the offset in force
+after the transition for `postTransition = true` (an instant before it), `localtimes.front()`'s for `false`. -/
+theorem zone_skipped_first (d : Data) (h : WF d) (hn : 0 < d.n) (dt : DateTime)
+    (h1 : d.u 0 + d.oPrev 0 ≤ fromUtcTime dt) (h2 : fromUtcTime dt < d.u 0 + d.o 0) :
+    fromLocalTime d dt true = fromUtcTime dt - d.o 0 ∧ fromLocalTime d dt true < d.u 0 ∧
+    fromLocalTime d dt false = fromUtcTime dt - d.oPrev 0 ∧ d.u 0 ≤ fromLocalTime d dt false := by
+  have eo : (d.lrec 0).utcOffset = d.o 0 := rfl
+  have e0 : (d.lt 0).utcOffset = d.oPrev 0 := rfl
+  have hs : d.u 0 - 1 + d.oPrev 0 < fromUtcTime dt := by omega
+  simp only [fromLocalTime, Gen.Zone.fromLocalShift, findLocal_beforeFirst h hn h2, e0, hs, and_true, true_and, if_true,
+    Bool.false_eq_true, if_false, eo]
+  omega
 
 /-- zones without transitions (fixed offset): the round trip holds for every instant on both sides. -/
 theorem zone_roundtrip_fixed (d : Data) (hn : d.n = 0) (t : Int) (post : Bool)
